@@ -58,6 +58,10 @@ CLAIMS["C20"] = ("other", "path enumeration with nil/bool facts over the observe
   "Decides on every path of the observer runner that the user callback is preceded by the AsObserver filter whenever a hand state may exist and system mode is off, that each actor receives and the adapter keeps a fresh JSON copy of the incoming table, and that the observer has no write path to the engine. One genuine leak (filter keyed on table status) was repaired (fix: commit). What AsObserver hides is trusted.",
   "DESIGN.md §4 C20, §5 F7", TRUST)
 
+CLAIMS["C14"] = ("other", "guard-dominance check of every did-flag store against the matching chance flag of the same statistics object (pairing table derived from the struct); path counting of counter bumps; loop-shape check of the 3-bet uniqueness; zero-constructor check; one frozen latent exception with a machine-checked side condition",
+  "Decides the did ⇒ chance implications, counter discipline, fold pairing, 3-bet uniqueness shape and the reset, on every path of the action methods and settlement. One construct breaks the did ⇒ chance shape but is dead code on this tree; it is reported as LATENT while the side condition that makes it dead is re-proved on each run. Whether the chance predicates implement poker's definitions is not decided.",
+  "DESIGN.md §4 C14, §5 F2", TRUST)
+
 REASONS = {}
 
 checks = []
